@@ -161,6 +161,55 @@ def r_chain(E):
                         (isinstance(src, ast.Call) and norm(src.func) == "reversed") or "[::-1]" in norm(src))
                     ok = bool(backwards)
         if ok is None:
+            # insertion-ordered dict idiom, possibly in a helper of the module called with a constant mode:
+            #     for x in chain: [D.pop(key(x), None)]; D.setdefault(key(x), x)  /  D[key(x)] = x;   … list(D.values())
+            # popping the key before inserting moves it to the end — the position of the LAST occurrence; without the pop
+            # the key stays where it was first inserted
+            from ..astutil import nodes_through_helpers as _nth_c
+            nodes_c = list(_nth_c(fn, None, depth=2, find_function=pm.function_finder(rel)))
+
+            def const_truth(t):
+                if isinstance(t, ast.Compare) and len(t.ops) == 1 and isinstance(t.left, ast.Constant) \
+                        and isinstance(t.comparators[0], ast.Constant):
+                    if isinstance(t.ops[0], ast.Eq):
+                        return t.left.value == t.comparators[0].value
+                    if isinstance(t.ops[0], ast.NotEq):
+                        return t.left.value != t.comparators[0].value
+                return None
+            for loop in [n for n in nodes_c if isinstance(n, ast.For) and isinstance(n.target, ast.Name)]:
+                lv = loop.target.id
+                inserts, pops, undecidable = [], [], False
+
+                def scan(stmts, live):
+                    nonlocal undecidable
+                    for st in stmts:
+                        if isinstance(st, ast.If):
+                            tv = const_truth(st.test)
+                            if tv is None:
+                                if any(isinstance(c, ast.Call) and isinstance(c.func, ast.Attribute) and c.func.attr in ("pop", "setdefault")
+                                       for c in ast.walk(st)):
+                                    undecidable = True
+                                continue
+                            scan(st.body if tv else st.orelse, live)
+                            continue
+                        for c in ast.walk(st):
+                            if isinstance(c, ast.Call) and isinstance(c.func, ast.Attribute) and c.args \
+                                    and norm(c.args[0]) in (lv, f"{lv}.id"):
+                                if c.func.attr == "pop":
+                                    pops.append((norm(c.func.value), len(inserts)))
+                                elif c.func.attr == "setdefault":
+                                    inserts.append(norm(c.func.value))
+                        if isinstance(st, ast.Assign) and isinstance(st.targets[0], ast.Subscript) \
+                                and norm(st.targets[0].slice) in (lv, f"{lv}.id") and norm(st.value) == lv:
+                            inserts.append(norm(st.targets[0].value))
+                scan(loop.body, True)
+                if inserts and len(set(inserts)) == 1 and not undecidable:
+                    d_ = inserts[0]
+                    backwards = (isinstance(loop.iter, ast.Call) and norm(loop.iter.func) == "reversed") or "[::-1]" in norm(loop.iter)
+                    popped_first = any(pd == d_ and at == 0 for pd, at in pops)
+                    ok = bool(popped_first) or bool(backwards)
+                    break
+        if ok is None:
             res.undecided.append(f"{q}: de-duplication test not recognised")
         elif not ok:
             res.findings.append(Finding(
